@@ -1,6 +1,89 @@
-"""C01 B layer: the generated-project shadow (shadows/project.py) - bounded, never counted as proved."""
-from shadows.project import run_shadow
+"""C01 bounded layers (never counted as proved):
+  B  the generated-project shadow (shadows/project.py);
+  B  the gate on directed `--set-version` targets through the real CLI: a target is accepted (exit 0) only if it
+     matches the pattern in full and is strictly greater under PEP 440 than the current version (reference:
+     packaging) - equal versions in another spelling, smaller versions and malformed texts are rejected and
+     nothing is written."""
+import re
+
+from shadows.project import run_shadow, FAMILIES
+
+# (pattern, current, target)
+GATE_CASES = [
+    ("MAJOR.MINOR.PATCH", "1.2.3", "1.2.4"),
+    ("MAJOR.MINOR.PATCH", "1.2.3", "1.2.3"),
+    ("MAJOR.MINOR.PATCH", "1.2.3", "1.02.3"),
+    ("MAJOR.MINOR.PATCH", "1.2.3", "01.2.3"),
+    ("MAJOR.MINOR.PATCH", "1.2.3", "1.2.2"),
+    ("MAJOR.MINOR.PATCH", "1.9.0", "1.10.0"),
+    ("MAJOR.MINOR.PATCH", "1.10.0", "1.9.9"),
+    ("MAJOR.MINOR.PATCH", "1.2.3", "1.2"),
+    ("MAJOR.MINOR.PATCH", "1.2.3", "1.2.4.5"),
+    ("MAJOR.MINOR.PATCH", "1.2.3", "v1.2.4"),
+    ("vMAJOR.MINOR.PATCH[-TAG]", "v1.2.3", "v1.2.3-final"),
+    ("vMAJOR.MINOR.PATCH[-TAG]", "v1.2.3-beta", "v1.2.3-alpha"),
+    ("vMAJOR.MINOR.PATCH[-TAG]", "v1.2.3-beta", "v1.2.3-rc"),
+    ("vMAJOR.MINOR.PATCH[-TAG]", "v1.2.3-rc", "v1.2.3"),
+    ("vMAJOR.MINOR.PATCH[-TAG]", "v1.2.3", "v1.2.3-post"),
+    ("vMAJOR.MINOR.PATCH[-TAG]", "v1.2.3", "v1.2.3-dev"),
+    ("vMAJOR.MINOR.PATCH[-TAG]", "v1.2.3-rc", "v1.2.3-dev"),
+    ("vMAJOR.MINOR.PATCH[-TAG]", "v1.2.3-alpha", "v1.2.3-dev"),
+    ("vMAJOR.MINOR.PATCH[-TAG]", "v1.2.3-dev", "v1.2.3-alpha"),
+    ("vMAJOR.MINOR.PATCH[-TAG]", "v1.2.3-post", "v1.2.3"),
+    ("vMAJOR.MINOR.PATCH[-TAG]", "v1.2.3", "v1.02.3"),
+    ("YYYY.BUILD[-TAG]", "2020.1009", "2020.1009"),
+    ("YYYY.BUILD[-TAG]", "2020.1009", "2020.1010"),
+    ("YYYY.BUILD[-TAG]", "2020.1009", "2019.1099"),
+    ("YYYY.BUILD[-TAG]", "2020.1009", "2020.1009-beta"),
+    ("{semver}", "1.2.3", "1.2.3"),
+    ("{semver}", "1.2.3", "1.02.3"),
+    ("{semver}", "1.2.3", "1.3.0"),
+]
+
+
+def gate_case(pattern, current, target):
+    import packaging.version as pv
+    from checks.c03 import run_set_version
+
+    r = run_set_version(pattern, current, target)
+    ok_shape = re.fullmatch(FAMILIES[pattern]["rx"], target) is not None
+    greater = ok_shape and pv.Version(target) > pv.Version(current)
+    if r["rc"] == 0 and not greater:
+        why = "does not match the pattern in full" if not ok_shape else f"is not greater than {current!r} under PEP 440"
+        return f"update --set-version {target!r} ({pattern}, from {current!r}) exited 0 although the target {why}; announced {r['announced']!r}, written {r['written']!r}"
+    if r["rc"] != 0 and r["changed"]:
+        return f"rejected --set-version {target!r} (exit {r['rc']}) changed files"
+    if r["rc"] != 0 and greater:
+        return f"update --set-version {target!r} ({pattern}, from {current!r}) was rejected (exit {r['rc']}) although it matches and is greater: {r['stderr']!r}"
+    return None
+
+
+def replay_gate(pattern, current, target):
+    return gate_case(pattern, current, target) is None
 
 
 def run(tier="quick", seed=0):
-    return [run_shadow("C01", tier, seed)]
+    out = [run_shadow("C01", tier, seed)]
+    bad = []
+    for case in GATE_CASES:
+        try:
+            r = gate_case(*case)
+        except Exception as e:  # noqa
+            r = f"exception {type(e).__name__}: {e}"
+        if r is not None:
+            bad.append((case, r))
+    out.append(
+        dict(
+            name="C01.set_version_gate.accepted_only_if_full_match_and_strictly_greater",
+            kind="B",
+            verdict="held" if not bad else "refuted",
+            cases=len(GATE_CASES),
+            distinct=len(GATE_CASES),
+            bound=f"{len(GATE_CASES)} directed --set-version targets (equal, equal in another spelling, smaller, greater, 9->10 carries, tag order, malformed) x 4 pattern families, real CLI in a subprocess, reference order: packaging",
+            witness=[dict(case=list(c), problem=r) for c, r in bad[:3]],
+            observed=bad[0][1] if bad else None,
+            sample=[list(c) for c in GATE_CASES[:3]],
+            python_replay=(dict(module="checks.c01", function="replay_gate", args=list(bad[0][0])) if bad else None),
+        )
+    )
+    return out
